@@ -69,6 +69,15 @@ fn main() {
             std::fs::write(dir.join("icy_bad.bin"), icyverif::files::png_join(&chunks)).expect("write");
             println!("ok");
         }
+        "corpus" => {
+            // diagnostic: list the seed files the loader checks start from
+            for s in icyverif::files::build_corpus() {
+                println!("{:6} {:5} {:8} {}", s.api, s.ext, s.bytes.len(), s.name);
+            }
+            for r in icyverif::files::corpus_refusals() {
+                println!("REFUSED {r}");
+            }
+        }
         "count" => {
             let mut info = prop.meta(&ctx);
             if !info.is_object() {
